@@ -305,6 +305,9 @@ class ResNetwork(GeoNetwork):
         # set property
         self.resistances = resistances
 
+        # forget effective resistances stored for the previous values
+        self._effective_resistances = None
+
         # update the admittance
         self.update_admittance()
 
